@@ -602,6 +602,15 @@ def run(ctx):
     # the stop is awaited on the kernel's own answer: Stat::state() of /proc/<pid>/stat == Stopped (same rule instance as C11/stop-state-source)
     from rules import c11 as _c11s
     _c11s.rule_stop_state_source(ctx, R="C03/stop-state-source")
+    # `whether the request returns or unwinds`: a panic unwinds and the dumper's Drop resumes the target, an ABORT does not.  The one abort
+    # a request can be talked into is an infallible allocation whose size the target or the caller controls (`vec![0; n]`,
+    # `Vec::with_capacity(n)`: handle_alloc_error aborts), so the allocation sinks of the C02 ledger are obligations here as well
+    # (same ledger, restricted to allocation sinks)
+    from rules import c02 as _c02a
+    from engine import taint as _T
+    _taint = _T.Taint(ctx.prog, _c02a.ENTRIES)
+    st_ = _c02a.ledger(ctx, _taint, "C03/no-abort-while-stopped", kinds=lambda k: k.startswith("call:alloc"))
+    ctx.floor("C03/no-abort-while-stopped", "allocation sinks examined", st_["total"], 1)
 
 
 def thorough(ctx):
